@@ -5,6 +5,9 @@ CLAIMED = {
  "C01": dict(text="Coq theorems by induction over all arithmetic trees (aeval = rational denotation, canonical, never float, div-by-zero is an error, floored modulo) about a hand-written Gallina model of the numeric tower; model tied to the code by differential runs of execute() vs the model evaluated in the Coq VM on exhaustive-small and seeded random trees.",
              note="Trusted: Coq kernel; CPython int/Fraction semantics are modelled (Num.v), tied by correspondence only; harness generators.",
              technique="Coq proof (structural induction over expression trees in Q) + kernel-lane differential correspondence", ref="6/C01"),
+ "C10": dict(text="General Coq theorem (any registry): the left-to-right scan of get_closest_match returns the unique least signature under every permutation; for the registry regenerated from the live ka.functions on every run, computed-and-lifted theorems: every (name, kind tuple) up to the largest arity+1 has a unique least applicable signature, resolution is order-independent for kind tuples of ANY length, no numeric narrowing, and dispatch selects a body only after name, signature and keyword validation. Correspondence: the live lookup/closest-match/dispatch on all 2.1M (name, kind-tuple) cases vs the model in the Coq VM, plus permutation runs on the live objects.",
+             note="Trusted: Coq kernel; translator (live dump of registry + isinstance/issubclass tables, one representative value per class); function bodies identified by registry index, not modelled here.",
+             technique="Coq proof (induction on the scan + vm_compute reflection over the regenerated registry, lifted by forallb_forall) + exhaustive differential correspondence", ref="6/C10"),
 }
 PENDING = {}
 ALL = ["C%02d" % i for i in range(1, 21)]
